@@ -424,7 +424,8 @@ def run(repo, rep):
     rep.clause("C19-d", "constant folding and table generation divide float32 scales only after widening them to double (reference precision) [rule shared with C09-b]")
     from . import c09
 
-    rep.run_borrowed(c09, {"C09-b": "C19-d"}, repo)
+    rep.run_borrowed(c09, {"C09-b": "C19-d", "C09-a": "C19-d"}, repo)
+    rule_table_generators_in_double(repo, rep)
 
 
 def _boundaries(repo, rep):
@@ -606,3 +607,30 @@ def _zero_constants(repo, rep):
                           "(demonstrated: a folded QUANTIZE that is a subgraph output comes out 20 codes too high for zero point -20)")
     if n < 3:
         raise AnalysisError(f"zero constants: only {n} found")
+
+
+def rule_table_generators_in_double(repo, rep):
+    """(d') the generators of the sigmoid / tanh / leaky-ReLU / hard-swish tables compute the real value and its quantisation in double: every
+    `.scale_f32` they read is widened (np.double / float) before it enters arithmetic. A float32 scale dividing a Python float gives a
+    float32 quotient under NumPy >= 2 (NEP 50), about 8e-6 output steps of error before rounding: entries that are near a tie (structural
+    for power-of-two input scales: sigmoid(k/128) * 256 is 2.5e-6 from a tie at k = +-1) get the neighbouring code."""
+    rep.clause("C19-d'", "the 8-bit table generators of the graph optimiser read quantisation scales only through a widening call (np.double / float): no float32 value takes part in the per-entry arithmetic")
+    go = repo.mod("tflite_graph_optimiser")
+    wide = ("np.double", "np.float64", "numpy.double", "numpy.float64", "float")
+    n = 0
+    for fname in ("convert_to_lut8", "convert_lrelu_to_lut", "convert_hardswish_to_lut"):
+        fn = go.func(fname)
+        par = go.parents
+        for x in ast.walk(fn):
+            if isinstance(x, ast.Attribute) and x.attr == "scale_f32" and isinstance(x.ctx, ast.Load):
+                n += 1
+                p_ = par.get(x)
+                widened = isinstance(p_, ast.Call) and call_name(p_) in wide and len(p_.args) == 1 and p_.args[0] is x
+                # a scale that is only handed to a helper (which widens itself) or compared is no arithmetic operand
+                passed_on = isinstance(p_, ast.Call) and not widened and call_name(p_) not in wide
+                rep.check(widened or passed_on or isinstance(p_, (ast.Compare, ast.keyword)), "C19-d'", f"ethosu/vela/tflite_graph_optimiser.py:{fname}", f"`{str(norm(x))}` is widened where it is read",
+                          f"read as `{str(norm(p_))[:70]}`: the float32 scale enters the table arithmetic (Python float / np.float32 is a float32 under NumPy >= 2): near-tie entries of SIGMOID / TANH tables "
+                          "come out one code off (about 1 table in 200 with random scales; codes +-1 around the zero point for power-of-two input scales)")
+    if n < 5:
+        raise AnalysisError(f"table generators: only {n} scale reads found")
+    rep.floor("C19-d'", 5)
